@@ -159,6 +159,9 @@ var qualRe = regexp.MustCompile(`\b([A-Za-z_][A-Za-z0-9_]*)\.([A-Za-z_][A-Za-z0-
 // importPrefix is the import path under which the case's packages live (caseModule, or caseModule/<id> inside a shared module)
 var importPrefixDefault = caseModule
 
+// pkgDir: a package id "p1_api" is the package in directory p1/api (named api); ids without '_' are their own directory
+func pkgDir(p string) string { return strings.ReplaceAll(p, "_", "/") }
+
 func localType(expr, inPkg string, imports map[string]bool, pkgs map[string]bool) string {
 	return localTypeP(expr, inPkg, imports, pkgs, importPrefixDefault)
 }
@@ -179,7 +182,11 @@ func localTypeP(expr, inPkg string, imports map[string]bool, pkgs map[string]boo
 			imports["github.com/gopher-fleece/runtime"] = true
 		default:
 			if pkgs[q] {
-				imports[prefix+"/"+q] = true
+				if strings.Contains(q, "_") {
+					imports[q+" "+prefix+"/"+pkgDir(q)] = true // same-basename packages: imported under their id as alias
+				} else {
+					imports[prefix+"/"+q] = true
+				}
 			}
 		}
 		return m
@@ -501,7 +508,7 @@ func writeProjectP(dir string, pc *pCase, repo string, hook bodyHook, prefix str
 	for _, k := range keys {
 		fb := files[k]
 		var sb strings.Builder
-		fmt.Fprintf(&sb, "package %s\n\n", filepath.Base(k.pkg)) // a nested package "p1/f1x" lives in p1/f1x and is named f1x
+		fmt.Fprintf(&sb, "package %s\n\n", filepath.Base(pkgDir(k.pkg))) // a nested package "p1/f1x" lives in p1/f1x and is named f1x
 		if len(fb.imports) > 0 {
 			imps := make([]string, 0, len(fb.imports))
 			for i := range fb.imports {
@@ -510,12 +517,16 @@ func writeProjectP(dir string, pc *pCase, repo string, hook bodyHook, prefix str
 			sort.Strings(imps)
 			sb.WriteString("import (\n")
 			for _, i := range imps {
-				fmt.Fprintf(&sb, "\t%q\n", i)
+				if a, path, aliased := strings.Cut(i, " "); aliased {
+					fmt.Fprintf(&sb, "\t%s %q\n", a, path)
+				} else {
+					fmt.Fprintf(&sb, "\t%q\n", i)
+				}
 			}
 			sb.WriteString(")\n\n")
 		}
 		sb.WriteString(fb.body.String())
-		p := filepath.Join(dir, k.pkg, k.file+".go")
+		p := filepath.Join(dir, pkgDir(k.pkg), k.file+".go")
 		if err := os.MkdirAll(filepath.Dir(p), 0o755); err != nil {
 			return err
 		}
